@@ -7,8 +7,11 @@ package main
 // ±1/0/max), the mutators, and the pure random share.
 
 import (
+	"encoding/json"
 	"fmt"
 	"net"
+	"os"
+	"path/filepath"
 	"strconv"
 	"time"
 
@@ -1033,4 +1036,53 @@ func tlvRemovals(entry, sub string, b []byte) [][]byte {
 		out = append(out, m)
 	}
 	return out
+}
+
+// The vendor prefixes the ZTP parsers dispatch on are regenerated from the source on
+// every run (facts.json: ztp4HasPrefix / ztp6HasPrefix, the strings.HasPrefix arguments
+// of parseClassIdentifier / ParseVendorData).  Every prefix - also one the hand-written
+// list above has never heard of - goes into the dictionary with 0..4 fields behind it
+// under each separator, so that a newly added vendor case is searched as hard as the old
+// ones (seeded change C03-14: a new "Aruba " case indexing one field too far).
+func init() {
+	fp := os.Getenv("VERIF_FACTS")
+	if fp == "" {
+		fp = filepath.Join(verifRoot(), ".work", "facts.json")
+	}
+	raw, err := os.ReadFile(fp)
+	if err != nil {
+		return
+	}
+	var f struct {
+		Bytes map[string][]int64 `json:"bytes"`
+	}
+	if json.Unmarshal(raw, &f) != nil {
+		return
+	}
+	have := map[string]bool{}
+	for _, s := range ztpClassStrings {
+		have[s] = true
+	}
+	for _, key := range []string{"ztp4HasPrefix", "ztp6HasPrefix"} {
+		var cur []byte
+		for _, b := range append(f.Bytes[key], 0) {
+			if b != 0 {
+				cur = append(cur, byte(b))
+				continue
+			}
+			p := string(cur)
+			cur = nil
+			if p == "" {
+				continue
+			}
+			for _, sep := range []string{" ", ";", ":", "-", "##", ",", "/"} {
+				for _, v := range []string{p, p + "a", p + "a" + sep + "b", p + "a" + sep + "b" + sep + "c", p + "a" + sep + "b" + sep + "c" + sep + "d", p + sep, p + sep + sep} {
+					if !have[v] {
+						have[v] = true
+						ztpClassStrings = append(ztpClassStrings, v)
+					}
+				}
+			}
+		}
+	}
 }
